@@ -1,8 +1,9 @@
 import Bng.Map
 /-
   Model of pkg/nexus/vlan.go (VLANAllocator) as of /repo commits f275b09 (LoadFromStore refuses a stored pair held by
-  another NTE and releases the NTE's previous pair) and 0d88701 (AllocateWithSTag checks the S-TAG range and releases the
-  old pair only after a new one was found).
+  another NTE and releases the NTE's previous pair), 0d88701 (AllocateWithSTag checks the S-TAG range and releases the
+  old pair only after a new one was found) and e67ca78 (findAvailableCTag no longer returns CTagRange.Start unchecked
+  for an unused S-TAG, so an empty C-TAG range yields nothing).
 
   One Lean function per Go method.  `allocations` is `allocs : NTE ↦ (s, c)`; the nested map
   `sTagUsage : s ↦ c ↦ NTE` is flattened to `usage : (s, c) ↦ NTE` — the inner map of `s` is nil exactly when no key
@@ -34,9 +35,6 @@ structure State where
 
 def init (c : Cfg) : State := { cfg := c, allocs := [], usage := [], cur := c.sS }
 
-/-- `v.sTagUsage[s] != nil` -/
-def stagUsed (u : AMap Pair Nat) (s : Nat) : Bool := u.any (fun e => e.1.1 == s)
-
 /-- result of one of the Go search loops: a value, "range exhausted", or the loop would never end -/
 inductive Scan (α : Type) where
   | found (x : α)
@@ -56,10 +54,8 @@ def scanC (u : AMap Pair Nat) (s cE : Nat) : Nat → Nat → Scan Nat
     if cE < c then .exhausted
     else if (AMap.lookup u (s, c)).isNone then .found c else scanC u s cE (w16 (c + 1)) f
 
-/-- findAvailableCTag -/
-def findC (st : State) (s : Nat) : Scan Nat :=
-  if stagUsed st.usage s then scanC st.usage s st.cfg.cE st.cfg.cS 65537
-  else .found st.cfg.cS
+/-- findAvailableCTag (a nil inner map reads as "nothing used", so the flattened `usage` needs no special case) -/
+def findC (st : State) (s : Nat) : Scan Nat := scanC st.usage s st.cfg.cE st.cfg.cS 65537
 
 /-- first loop of findAvailable, `for sTag := currentSTag; sTag <= sE; sTag++` over uint16 (wraps when sE = 65535) -/
 def scanS1 (st : State) : Nat → Nat → Scan Pair
